@@ -73,13 +73,5 @@ func (p *Prog) RunOffs() []string {
 			fall(pc)
 		}
 	}
-	// A code label that sits directly in front of a boundary label (empty tail).
-	for pc, ls := range p.LabelsAt {
-		if !p.Boundary[pc] || len(ls) < 2 {
-			continue
-		}
-		// LabelsAt keeps definition order: an internal label followed by the boundary label.
-		_ = ls
-	}
 	return problems
 }
